@@ -363,3 +363,17 @@ Fixpoint sample_run (k : Z) (fs : list bytes) (m : list (bytes * list record)) (
   end.
 Definition sample (k : Z) (fs : list bytes) (ds : list Z) (l : list record) : list record :=
   emit_buckets (sample_run k fs [] 1 ds l).
+
+(* ------------------------------------------------------------------ contexts
+   In the implementation every record travels with the context (NR, FNR, FILENAME) its record-reader gave it; downstream
+   of filter / tac / sort / head -g ... those NR values are no longer the arrival index (gaps, disorder, repeats).
+   The verb models above take the bare record stream: whatever they count (head, tail, decimate, cat -n), they count
+   ARRIVALS.  [on_records] runs a model on a stream of (record, context) pairs; the correspondence check feeds the real
+   verbs such pairs with arbitrary contexts and expects the model's answer. *)
+Definition context := (Z * Z * bytes)%type.                  (* NR, FNR, FILENAME *)
+Definition ctx_nr (c : context) : Z := fst (fst c).
+Definition cstream := list (record * context).
+Definition on_records {A} (v : list record -> A) (s : cstream) : A := v (map fst s).
+(* the reading a verb must NOT have: `tail -n +N` as "records whose NR is at least N" *)
+Definition tail_plus_by_nr (n : Z) (s : cstream) : list record :=
+  map fst (filter (fun p => ctx_nr (snd p) >? Z.max (n - 1) 0) s).
